@@ -967,6 +967,7 @@ void HistSim::opSetSel(const Op& op, size_t ix) {
   auto region = pathOf(doc, h->node);
   region.push_back(s);
   beginOp(j, doc, region);
+  K kindBefore = node->k;
   Val* slot = mGetOrCreate(*node, s);
   if (slot)
     assignContent(*slot, v);
@@ -1042,7 +1043,27 @@ void HistSim::opSetSel(const Op& op, size_t ix) {
         }
       }
     };
-    if (s.isKey) {
+    // vk=1: the key (or index) is itself a value of another document (obj[variant] / arr[variant]); that
+    // document is gone when the call returns, so the new member must not depend on it
+    bool vk = op.num("vk") == 1 && ((h->view == 'o' && s.isKey) || (h->view == 'a' && !s.isKey) ||
+                                     (h->view == 'v' && !viadoc && ((s.isKey && kindBefore == K::Obj) || (!s.isKey && kindBefore == K::Arr))));
+    if (vk) {
+      JsonDocument* kd = new JsonDocument(&tmpAlloc_);
+      if (s.isKey)
+        kd->set(JsonString(s.key.data(), s.key.size(), JsonString::Copied));
+      else
+        kd->set(s.idx);
+      JsonVariantConst kv = kd->as<JsonVariantConst>();
+      count("op.sets_variant_key");
+      if (s.isKey) {
+        JsonObject o = h->view == 'o' ? h->o : realVariant(*h).as<JsonObject>();
+        j.actual = apply(o[kv]);
+      } else {
+        JsonArray a = h->view == 'a' ? h->a : realVariant(*h).as<JsonArray>();
+        j.actual = apply(a[kv]);
+      }
+      delete kd;
+    } else if (s.isKey) {
       // the value is a string too: keep the product of instantiations small by using
       // sized/zero-terminated representatives for the key
       Src ks = pickSrc(ix, 0, s.key, false);
@@ -1286,7 +1307,7 @@ void HistSim::opRemove(const Op& op, size_t ix) {
   if (real_) {
     startFaults(op);
     JsonDocument& d = *docs_[size_t(doc)].doc;
-    bool viadoc = h->root && via == 1;
+    bool viadoc = h->root && (via == 1 || (via == 3 && (ix & 1)));  // remove(variant) exists on the document too
     JsonVariant dst = realVariant(*h);
     if (iter && s.isKey) {
       JsonObject o = h->view == 'o' ? h->o : dst.as<JsonObject>();
@@ -1302,7 +1323,7 @@ void HistSim::opRemove(const Op& op, size_t ix) {
       a.remove(it);
     } else if (s.isKey) {
       Src ks = pickSrc(ix, 0, s.key, false);
-      if (via == 3 && s.key.find('\0') == std::string::npos) {
+      if (via == 3) {
         // remove(JsonVariant key)
         JsonDocument kd(&tmpAlloc_);
         kd.set(s.key);
